@@ -373,6 +373,85 @@ func forgeries(c *Ctx, s p7Seed, emit func(class string, b []byte)) {
 		}
 		return true
 	})
+	// several signer entries: the verdict must come from an entry that NAMES the certificate
+	// and carries a valid signature, never from a mix of two entries
+	otherIdentity := func(si *derNode) bool {
+		if len(si.kids) < 2 || len(si.kids[1].kids) != 2 {
+			return false
+		}
+		o, _ := parseDER(s.other.RawIssuer)
+		if len(o) != 1 {
+			return false
+		}
+		ias := si.kids[1]
+		ias.kids[0] = o[0]
+		ias.kids[1].leaf = s.other.SerialNumber.Bytes()
+		if len(ias.kids[1].leaf) > 0 && ias.kids[1].leaf[0]&0x80 != 0 {
+			ias.kids[1].leaf = append([]byte{0}, ias.kids[1].leaf...)
+		}
+		return true
+	}
+	damageSig := func(si *derNode) bool {
+		for i := len(si.kids) - 1; i >= 0; i-- {
+			if si.kids[i].tag == 0x04 && len(si.kids[i].leaf) > 8 {
+				si.kids[i].leaf[len(si.kids[i].leaf)/2] ^= 0x10
+				return true
+			}
+		}
+		return false
+	}
+	signerSet := func(r *derNode) *derNode {
+		sd := sdOf(r)
+		if len(sd.kids) == 0 {
+			return nil
+		}
+		set := sd.kids[len(sd.kids)-1]
+		if set.tag != 0x31 || len(set.kids) != 1 {
+			return nil
+		}
+		return set
+	}
+	for _, v := range []struct {
+		class string
+		first []func(*derNode) bool // edits of the first entry
+		secnd []func(*derNode) bool // edits of the second entry
+	}{
+		{"two-signers/foreign-valid+named-damaged", []func(*derNode) bool{otherIdentity}, []func(*derNode) bool{damageSig}},
+		{"two-signers/named-damaged+foreign-valid", []func(*derNode) bool{damageSig}, []func(*derNode) bool{otherIdentity}},
+		{"two-signers/foreign-damaged+named-valid", []func(*derNode) bool{otherIdentity, damageSig}, nil},
+		{"two-signers/named-damaged+named-valid", []func(*derNode) bool{damageSig}, nil},
+		{"two-signers/named-valid+foreign-damaged", nil, []func(*derNode) bool{otherIdentity, damageSig}},
+		{"two-signers/foreign-valid+foreign-damaged", []func(*derNode) bool{otherIdentity}, []func(*derNode) bool{otherIdentity, damageSig}},
+	} {
+		v := v
+		edit(v.class, func(r *derNode) bool {
+			set := signerSet(r)
+			if set == nil {
+				return false
+			}
+			a, b := set.kids[0], set.kids[0].clone()
+			for _, f := range v.first {
+				if !f(a) {
+					return false
+				}
+			}
+			for _, f := range v.secnd {
+				if !f(b) {
+					return false
+				}
+			}
+			set.kids = []*derNode{a, b}
+			return true
+		})
+	}
+	// replace every OID of the blob by a sibling algorithm / type, alone and together with a content change
+	// (an algorithm identifier must never switch a check off)
+	oidSwaps(s.blob, func(class string, b []byte) {
+		emit(class, b)
+		if t, ok := tamperContent(b); ok {
+			emit(class+"+forge-content", t)
+		}
+	})
 	edit("forge-message-digest", func(r *derNode) bool {
 		done := false
 		r.walk(nil, func(n, _ *derNode) {
@@ -384,6 +463,85 @@ func forgeries(c *Ctx, s p7Seed, emit func(class string, b []byte)) {
 		})
 		return done
 	})
+}
+
+var altOIDs = []struct {
+	name string
+	der  []byte
+}{
+	{"sha384", []byte{0x60, 0x86, 0x48, 0x01, 0x65, 0x03, 0x04, 0x02, 0x02}},
+	{"sha512", []byte{0x60, 0x86, 0x48, 0x01, 0x65, 0x03, 0x04, 0x02, 0x03}},
+	{"sha1", []byte{0x2b, 0x0e, 0x03, 0x02, 0x1a}},
+	{"sha256", []byte{0x60, 0x86, 0x48, 0x01, 0x65, 0x03, 0x04, 0x02, 0x01}},
+	{"rsaEncryption", []byte{0x2a, 0x86, 0x48, 0x86, 0xf7, 0x0d, 0x01, 0x01, 0x01}},
+	{"sha256WithRSA", []byte{0x2a, 0x86, 0x48, 0x86, 0xf7, 0x0d, 0x01, 0x01, 0x0b}},
+	{"data", []byte{0x2a, 0x86, 0x48, 0x86, 0xf7, 0x0d, 0x01, 0x07, 0x01}},
+}
+
+// oidSwaps replaces, one at a time, every OBJECT IDENTIFIER outside the certificates by
+// each alternative of altOIDs
+func oidSwaps(blob []byte, emit func(class string, b []byte)) {
+	roots, ok := parseDER(blob)
+	if !ok || len(roots) == 0 {
+		return
+	}
+	var idxs []int
+	i := 0
+	var inCerts func(n *derNode, depth int, under bool)
+	inCerts = func(n *derNode, depth int, under bool) {
+		me := i
+		i++
+		if n.tag == 0x06 && !under {
+			idxs = append(idxs, me)
+		}
+		for _, k := range n.kids {
+			// the [0] certificates field sits at depth 3 (ContentInfo > [0] > SignedData > [0]) or 1 for bare SignedData
+			inCerts(k, depth+1, under || (k.tag == 0xa0 && len(k.kids) > 0 && k.kids[0].tag == 0x30 && len(k.kids[0].kids) == 3 && k.kids[0].kids[2].tag == 0x03))
+		}
+	}
+	inCerts(roots[0], 0, false)
+	for _, at := range idxs {
+		for _, alt := range altOIDs {
+			cl := roots[0].clone()
+			j := 0
+			var target *derNode
+			cl.walk(nil, func(m, _ *derNode) {
+				if j == at {
+					target = m
+				}
+				j++
+			})
+			if target == nil || bytes.Equal(target.leaf, alt.der) {
+				continue
+			}
+			target.leaf = append([]byte{}, alt.der...)
+			emit(fmt.Sprintf("oid-swap/%d/%s", at, alt.name), cl.encode())
+		}
+	}
+}
+
+// tamperContent flips bits in the last sizeable leaf of the encapsulated content
+func tamperContent(blob []byte) ([]byte, bool) {
+	roots, ok := parseDER(blob)
+	if !ok || len(roots) == 0 {
+		return nil, false
+	}
+	r := roots[0].clone()
+	sd := r
+	if len(r.kids) == 2 && r.kids[0].tag == 0x06 && r.kids[1].tag == 0xa0 && len(r.kids[1].kids) == 1 {
+		sd = r.kids[1].kids[0]
+	}
+	if len(sd.kids) < 3 || len(sd.kids[2].kids) < 2 {
+		return nil, false
+	}
+	changed := false
+	sd.kids[2].kids[1].walk(nil, func(n, _ *derNode) {
+		if !n.compound && len(n.leaf) >= 20 && !changed {
+			n.leaf[len(n.leaf)-1] ^= 0x55
+			changed = true
+		}
+	})
+	return r.encode(), changed
 }
 
 func c04Gen(c *Ctx) {
@@ -416,7 +574,7 @@ func c04Gen(c *Ctx) {
 	}
 	for _, s := range seeds {
 		run(s, "seed", s.blob, true)
-		forgeries(c, s, func(class string, b []byte) { run(s, class, b, true) })
+		forgeries(c, s, func(class string, b []byte) { run(s, class, b, !strings.HasPrefix(class, "oid-swap") || c.Thorough) })
 		mutateBlob(c, s.blob, func(class string, b []byte) { run(s, class, b, c.Rng.Intn(8) == 0) })
 		if c.NFailures() >= 8 {
 			return
@@ -426,7 +584,7 @@ func c04Gen(c *Ctx) {
 
 func init() {
 	register("C04", &PropDef{
-		Rule:   "seeds: library-signed data (detached) and SpcIndirectDataContent blobs under three certificate shapes, the sbsign/sbvarsign fixtures of the repository, OpenSSL smime/cms blobs when the CLI is present, OpenSSL-shaped CMS blobs built in the harness; each verified under the signer's certificate, a twin certificate (same issuer and serial, another key) and an unrelated one. Derived blobs: single-bit/byte changes (quick: 40 stratified positions; thorough: every position of blobs <= 2 KiB), a bit flip inside every DER leaf (signature, digest, integers, OIDs), delete/duplicate/swap of the children of every constructed node, truncations, and targeted forgeries (content, content type, certificates, signer identity, message digest, dropped signed attributes). Every case is non-trivial; distinct = distinct (blob, certificate).",
+		Rule:   "seeds: library-signed data (detached) and SpcIndirectDataContent blobs under three certificate shapes, the sbsign/sbvarsign fixtures of the repository, OpenSSL smime/cms blobs when the CLI is present, OpenSSL-shaped CMS blobs built in the harness; each verified under the signer's certificate, a twin certificate (same issuer and serial, another key) and an unrelated one. Derived blobs: single-bit/byte changes (quick: 40 stratified positions; thorough: every position of blobs <= 2 KiB), a bit flip inside every DER leaf (signature, digest, integers, OIDs), delete/duplicate/swap of the children of every constructed node, truncations, and targeted forgeries (content, content type, certificates, signer identity, message digest, dropped signed attributes, every object identifier outside the certificates replaced by each of seven sibling OIDs alone and together with a content change, and six two-signer-entry combinations of {names the certificate, names another} x {valid, damaged signature}). Every case is non-trivial; distinct = distinct (blob, certificate).",
 		Assume: []string{"x509.ParseCertificates and Certificate.CheckSignature are opaque Go library code; RSA/SHA-256 on the model side are the executable Lean implementations, compared with Go's verdict on every case"},
 		Eval:   c04Eval, Gen: c04Gen,
 	})
